@@ -32,7 +32,7 @@ TMPL = st.lists(st.sampled_from(["c", "c", "c", "c", " ", "%", "%s", "%(x)s", "{
                                  "\n", "\r\n"]),
                 min_size=1, max_size=12)
 MODES = ["client", "client", "raw", "early", "twice", "free", "nouser", "reuser", "client_context", "overlimit", "overlimit_server",
-         "error_paths", "client_latin1", "client_ascii", "client_latin1", "work", "work", "overlong"]
+         "error_paths", "client_latin1", "client_ascii", "client_latin1", "work", "work", "overlong", "two_sessions", "two_sessions"]
 CASE = st.tuples(TMPL, st.sampled_from(MODES), st.sampled_from(["PASS", "pass", "PaSs"]), st.booleans())
 
 
@@ -188,6 +188,21 @@ async def session(loop, pw, stored, mode, verb):
                 await c.get_current_directory()
         except (aioftp.StatusCodeError, ConnectionError, ValueError):
             pass
+    elif mode == "two_sessions":
+        # two sessions of the same password account, re-USER in one and then in the other (state shared per account)
+        a, b = harness.Raw(), harness.Raw()
+        line = verb + " " + pw
+        for r in (a, b):
+            await r.connect()
+            await r.cmd("USER bob")
+            await r.cmd(line)
+        for r, ln in ((a, "USER free"), (a, "PWD"), (b, "USER bob"), (b, line), (b, "PWD"), (a, "USER bob"), (a, line), (b, "USER nobody"),
+                      (a, "USER bob"), (a, line), (a, "QUIT"), (b, "QUIT")):
+            code, _ls = await r.cmd(ln)
+            if code == "EOF":
+                break
+        a.close()
+        b.close()
     else:
         raw = harness.Raw()
         await raw.connect()
